@@ -180,7 +180,8 @@ def tlc_validate(module, cfg, trace_path, timeout=600, extra_files=None, dfs=Fal
         mb = re.search(r"line \|-> (\d+)", badtxt)
         if mb and int(mb.group(1)) > 0:
             cats = re.findall(r'"(\w+)"', badtxt.split("cats", 1)[1]) if "cats" in badtxt else []
-            bad = {"line": int(mb.group(1)), "cats": sorted(set(cats))}
+            cats = re.findall(r'"(\w+)"', re.search(r"cats \|-> \{([^}]*)\}", badtxt).group(1))
+            bad = {"line": int(mb.group(1)), "cats": sorted(set(cats)), "model": " ".join(badtxt.split())[:3000]}
         ms = re.search(r"(\d+) states generated, (\d+) distinct states found", out)
         return {"consumed": consumed, "total": total, "bad": bad, "wall": time.time() - t0,
                 "states": int(ms.group(1)) if ms else 0, "distinct": int(ms.group(2)) if ms else 0, "out": out}
